@@ -68,6 +68,11 @@ def load():
     return importlib.import_module('verif_models')
 
 
+def random_calib(rng):
+    """a calibration in a mild box around the base one (thorough tier: the properties quantify over calibrations)"""
+    return dict(alpha=round(rng.uniform(0.28, 0.38), 4), beta=round(rng.uniform(0.93, 0.97), 4), z=round(rng.uniform(0.92, 1.08), 4), e=round(rng.uniform(0.02, 0.08), 4))
+
+
 def write_linear_models(tag, specs):
     """specs: list of models; a model = list of blocks; a block = dict(name, ins=[names], outs={out: {in: coef}})"""
     d = os.path.join(C.WORK, 'models')
@@ -79,7 +84,8 @@ def write_linear_models(tag, specs):
             for b in blocks:
                 f.write(f'@simple\ndef m{mi}_{b["name"]}({", ".join(b["ins"])}):\n')
                 for o, coefs in b['outs'].items():
-                    rhs = ' + '.join(f'({c}) * {i}' for i, c in coefs.items()) or '0 * ' + b['ins'][0]
+                    term = lambda i, c: f'({c}) * {i}' if not isinstance(c, (tuple, list)) else (f'({c[0]}) * {i}({c[1]:+d})' if c[1] else f'({c[0]}) * {i}')
+                    rhs = ' + '.join(term(i, c) for i, c in coefs.items()) or '0 * ' + b['ins'][0]
                     f.write(f'    {o} = {rhs}\n')
                 f.write('    return ' + ', '.join(b['outs']) + '\n\n')
     if d not in sys.path:
